@@ -70,7 +70,7 @@ fn d<T: std::fmt::Debug>(v: T) -> String {
     format!("{v:?}")
 }
 
-const OPS: [(&str, OpFn); 12] = [
+const OPS: [(&str, OpFn); 13] = [
     ("lookup paris", |s| d(s.paris.find_local_time_type(T_SUMMER))),
     ("lookup ny", |s| d(s.ny.find_local_time_type(T_SUMMER))),
     ("lookup la", |s| d(s.la.find_local_time_type(T_SUMMER))),
@@ -83,6 +83,7 @@ const OPS: [(&str, OpFn); 12] = [
     ("parse v2 plain footer", |_| d(TimeZone::from_tz_data(&utc_block_file(b'2', b"EST5EDT,M3.2.0,M11.1.0")))),
     ("project+display", |s| d(s.utc_dt.project(s.paris.as_ref()).map(|x| x.to_string()))),
     ("find ny fold", |s| d(DateTime::find(2021, 11, 7, 1, 30, 0, 0, s.ny.as_ref()).map(|l| l.into_inner()))),
+    ("lookup ny winter", |s| d(s.ny.find_local_time_type(1_578_000_000))),
 ];
 
 fn fnv(s: &str) -> u64 {
@@ -154,6 +155,10 @@ fn main() {
     }
     let thorough = args.iter().any(|a| a == "thorough");
     let cap: usize = if thorough { 200_000 } else { 20_000 };
+    // wall budget for the whole exploration: with rerouted primitives the schedule space of a body can explode;
+    // bodies not reached within the budget are reported as skipped (never silently)
+    let budget = std::time::Duration::from_secs(args.iter().position(|a| a == "--budget-secs").and_then(|i| args.get(i + 1)).and_then(|s| s.parse().ok()).unwrap_or(if thorough { 900 } else { 45 }));
+    let started = std::time::Instant::now();
     let exe = std::env::current_exe().unwrap();
     // run-alone digests: one fresh process per operation
     let mut alone = vec![];
@@ -176,11 +181,6 @@ fn main() {
     // bodies: 2 threads x 2 ops over every ordered pair per thread (thread order irrelevant), 3 threads x 1 op (multisets)
     let n = OPS.len();
     let mut bodies: Vec<Vec<Vec<usize>>> = vec![];
-    for a in 0..n * n {
-        for b in a..n * n {
-            bodies.push(vec![vec![a / n, a % n], vec![b / n, b % n]]);
-        }
-    }
     for a in 0..n {
         for b in a..n {
             for c in b..n {
@@ -188,6 +188,16 @@ fn main() {
             }
         }
     }
+    let mut two: Vec<Vec<Vec<usize>>> = vec![];
+    for a in 0..n * n {
+        for b in a..n * n {
+            two.push(vec![vec![a / n, a % n], vec![b / n, b % n]]);
+        }
+    }
+    // cheapest bodies first (lookups and searches before parsers), so that a wall budget cuts the expensive tail
+    let cost = |o: usize| -> usize { match o { 0 | 1 | 2 | 12 => 0, 3 | 4 | 11 | 10 => 1, _ => 2 } };
+    two.sort_by_key(|b| b.iter().flatten().map(|&o| cost(o)).sum::<usize>());
+    bodies.extend(two);
     if thorough {
         // 3 threads x 2 ops over a 6-op collision subset
         let sub = [1usize, 3, 5, 6, 7, 8];
@@ -204,12 +214,19 @@ fn main() {
     let mut caps = 0usize;
     let mut violations = vec![];
     let mut max_iter_one_body = 0usize;
+    let mut explored = 0usize;
     for th in &bodies {
+        if started.elapsed() > budget {
+            break;
+        }
+        explored += 1;
         let th2 = th.clone();
         let before = ITER.load(Ordering::Relaxed);
         let dir = sched_dir.clone();
         let res = std::panic::catch_unwind(move || {
-            let r = Runner::new(DfsScheduler::new(Some(cap), false), quiet_config(Some(dir)));
+            let mut cfg = quiet_config(Some(dir));
+            cfg.max_time = Some(std::time::Duration::from_secs(20));
+            let r = Runner::new(DfsScheduler::new(Some(cap), false), cfg);
             r.run(move || body(&th2))
         });
         let iters = ITER.load(Ordering::Relaxed) - before;
@@ -235,16 +252,17 @@ fn main() {
                     let r = std::panic::catch_unwind(move || shuttle::replay(move || body(&th3), &s2));
                     reproduced.push(r.is_err());
                 }
-                violations.push(json!({"threads": th.iter().map(|t| t.iter().map(|&o| OPS[o].0).collect::<Vec<_>>()).collect::<Vec<_>>(), "indices": th, "message": msg, "schedule": sched, "replay_fails_again": reproduced}));
+                let class = if msg.contains("different from its run-alone result") { "an operation returned a result different from its run-alone result under this schedule" } else { "the explored code failed inside the scheduler's model of a rerouted primitive (e.g. a static array of atomics that persists across explored executions): the global / interior state itself is what C15 forbids" };
+                violations.push(json!({"failure_class": class, "threads": th.iter().map(|t| t.iter().map(|&o| OPS[o].0).collect::<Vec<_>>()).collect::<Vec<_>>(), "indices": th, "message": msg, "schedule": sched, "replay_fails_again": reproduced}));
                 for f in files {
                     let _ = std::fs::remove_file(f);
                 }
-                if violations.len() >= 12 {
-                    break;
-                }
+                // a panic unwinding through the scheduler can leave its per-process pools in an undefined state: the first
+                // counterexample (simplest body first) is reported and the exploration stops
+                break;
             }
         }
     }
     let _ = std::fs::remove_dir_all(&sched_dir);
-    println!("{}", json!({"bodies": bodies.len(), "schedules": schedules, "max_schedules_one_body": max_iter_one_body, "bodies_that_hit_the_iteration_cap": caps, "iteration_cap_per_body": cap, "ops": OPS.iter().map(|o| o.0).collect::<Vec<_>>(), "violations": violations}));
+    println!("{}", json!({"bodies": explored, "bodies_generated": bodies.len(), "bodies_skipped_wall_budget": bodies.len() - explored, "wall_budget_s": budget.as_secs(), "schedules": schedules, "max_schedules_one_body": max_iter_one_body, "bodies_that_hit_the_iteration_cap": caps, "iteration_cap_per_body": cap, "ops": OPS.iter().map(|o| o.0).collect::<Vec<_>>(), "stopped_at_first_counterexample": !violations.is_empty(), "violations": violations}));
 }
